@@ -272,6 +272,8 @@ func (s *Stats) Check(t *testing.T, o CheckOpts, prop func(c *Case)) {
 					switch x := r.(type) {
 					case replayFail:
 						t.Errorf("replay reproduces the violation: %s", x.msg)
+					case scriptExhausted:
+						t.Logf("replay ran past the end of the script without a violation")
 					case scriptMismatch:
 						s.Extra["replay_mismatch"] = x.msg
 						t.Logf("REPLAY-MISMATCH: %s", x.msg)
